@@ -40,18 +40,26 @@ def st_basis(
     exp_range=(-2.0, 3.0),
     max_nbasis=60,
     min_l=0,
+    balanced=False,
 ):
     ncenter = draw(st.integers(1, max_centers))
     shells = []
     nbasis = 0
     nshell = draw(st.integers(1, max_shells))
+    # balanced: a basis-level style, so that purely segmented bases (which every format accepts
+    # without conversion) are as frequent as bases with SP or generalized shells
+    style = draw(st.sampled_from(["segmented", "segmented", "sp", "general", "general"])) if balanced else "general"
     for _ in range(nshell):
-        ncon = draw(st.integers(1, max_con)) if general else 1
-        shape = (
-            draw(st.sampled_from(["any", "any", "any", "any", "sp", "sp", "ps"]))
-            if (general and max_con >= 2)
-            else "any"
-        )
+        if style == "general":
+            ncon = draw(st.integers(1, max_con)) if general else 1
+            shape = (
+                draw(st.sampled_from(["any", "any", "any", "any", "sp", "sp", "ps"]))
+                if (general and max_con >= 2)
+                else "any"
+            )
+        else:
+            ncon = 1
+            shape = draw(st.sampled_from(["any", "any", "sp"])) if (style == "sp" and general and max_con >= 2) else "any"
         cons = []
         if shape == "sp" and min_l == 0:
             cons = [[0, "c"], [1, "c"]]
@@ -97,13 +105,13 @@ def st_basis(
 
 
 @st.composite
-def st_mo(draw, kinds=("restricted", "unrestricted"), allow_aminusb=True):
+def st_mo(draw, kinds=("restricted", "unrestricted"), allow_aminusb=True, non_aufbau=False):
     kind = draw(st.sampled_from(list(kinds)))
     occ = draw(
         st.sampled_from(
-            ["closed", "open_integer", "fractional", "closed", "open_integer"]
-            if kind == "restricted"
-            else ["aufbau", "fractional", "aufbau"]
+            (["closed", "open_integer", "fractional", "closed", "open_integer"]
+             if kind == "restricted"
+             else ["aufbau", "fractional", "aufbau"]) + (["non_aufbau"] if non_aufbau else [])
         )
     )
     return {
@@ -271,6 +279,11 @@ def build_mo(mospec, plain, overlap=None):
             occs = np.array([2.0] * nocc + [0.0] * (norb - nocc))
         elif occ == "open_integer":
             occs = np.array([2.0] * ndocc + [1.0] * nopen + [0.0] * (norb - nocc))
+        elif occ == "non_aufbau":
+            # integer occupations with holes below occupied orbitals (an excited determinant)
+            norb = min(nbasis, max(norb, nocc + 1))
+            occs = np.array([2.0] * ndocc + [1.0] * nopen + [0.0] * (norb - nocc))
+            occs = _not_sorted(occs, rng)
         else:
             occs = np.sort(rng.uniform(0.05, 1.95, size=norb))[::-1].copy()
             occs = np.round(occs, 4) + 0.00013
@@ -289,7 +302,7 @@ def build_mo(mospec, plain, overlap=None):
                 occs_aminusb[idx[0]], occs_aminusb[idx[1]] = val, -val
         coeffs = rotation()[:, :norb]
         energies = np.sort(rng.normal(size=norb)) if mospec["energies"] else None
-        irreps = np.array([f"A{i % 3 + 1}" for i in range(norb)]) if mospec["irreps"] else None
+        irreps = rng.choice(["A1", "A2", "B1", "B2", "E"], size=norb) if mospec["irreps"] else None
         return {
             "kind": "restricted",
             "norba": norb,
@@ -306,11 +319,21 @@ def build_mo(mospec, plain, overlap=None):
         if na == 0:
             na = 1
         norba, norbb = norb_for(na), norb_for(nb) if nb > 0 else norb_for(1)
-        if mospec["virtuals"] == "some" and norbb > 1 and mospec["nopen"] == 1:
-            norbb -= 1  # different numbers of alpha and beta orbitals
+        if mospec["virtuals"] == "some":
+            # different numbers of alpha and beta orbitals (by 0, 1 or 2)
+            norbb -= max(0, min(mospec["mo_seed"] % 3, norbb - max(nb, 1)))
         if mospec["occ"] == "aufbau":
             occsa = np.array([1.0] * na + [0.0] * (norba - na))
             occsb = np.array([1.0] * nb + [0.0] * (norbb - nb))
+        elif mospec["occ"] == "non_aufbau":
+            norba, norbb = min(nbasis, max(norba, na + 1)), min(nbasis, max(norbb, nb + 1))
+            occsa = np.array([1.0] * na + [0.0] * (norba - na))
+            occsb = np.array([1.0] * nb + [0.0] * (norbb - nb))
+            which = mospec["mo_seed"] % 3
+            if which in (0, 2):
+                occsa = _not_sorted(occsa, rng)
+            if which in (1, 2) or np.all(np.diff(occsa) <= 0):
+                occsb = _not_sorted(occsb, rng)
         else:
             occsa = np.round(np.sort(rng.uniform(0.02, 0.98, size=norba))[::-1], 4) + 0.00013
             occsb = np.round(np.sort(rng.uniform(0.02, 0.98, size=norbb))[::-1], 4) + 0.00013
@@ -321,7 +344,7 @@ def build_mo(mospec, plain, overlap=None):
             energies = np.concatenate(
                 [np.sort(rng.normal(size=norba)), np.sort(rng.normal(size=norbb))]
             )
-        irreps = np.array([f"B{i % 2 + 1}" for i in range(norb)]) if mospec["irreps"] else None
+        irreps = rng.choice(["A1", "A2", "B1", "B2", "E"], size=norb) if mospec["irreps"] else None
         return {
             "kind": "unrestricted",
             "norba": norba,
@@ -345,6 +368,18 @@ def build_mo(mospec, plain, overlap=None):
         "irreps": None,
         "occs_aminusb": None,
     }
+
+
+def _not_sorted(occs, rng):
+    """A permutation of ``occs`` that is not in descending order (unchanged if none exists)."""
+    if len(set(occs.tolist())) < 2:
+        return occs
+    for _ in range(20):
+        perm = rng.permutation(len(occs))
+        out = occs[perm]
+        if np.any(np.diff(out) > 0):
+            return out
+    return occs[::-1].copy()
 
 
 def to_iodata_mo(mo):
